@@ -15,6 +15,16 @@ pub const VALUE_F64_FIELD: &str = "value_f64";
 pub const VALUE_I64_FIELD: &str = "value_i64";
 pub const VALUE_U64_FIELD: &str = "value_u64";
 
+/// Whether `name` is the name of one of the fixed metric columns. A label (attribute)
+/// of that name cannot get a column of its own: the batch would have two columns of one
+/// name, and readers resolve a name to one of them.
+pub fn is_fixed_column_name(name: &str) -> bool {
+    matches!(
+        name,
+        TIMESTAMP_FIELD | METRIC_NAME_FIELD | VALUE_F64_FIELD | VALUE_I64_FIELD | VALUE_U64_FIELD
+    )
+}
+
 /// Metric types
 #[derive(Debug, Clone, Copy, PartialEq, Eq, Hash)]
 pub enum MetricType {
